@@ -5,17 +5,24 @@
 (*   set_egress_amplifier:             SetAmp* (variety, gain, output VOA, delta_p in power mode)               *)
 (* The elements of one phase are taken in index order (the code iterates over a list fixed before the loop);    *)
 (* the clauses of C08 are stated on the final graph and do not depend on that order.                            *)
+(* A network object can be used more than once: after a design the same graph may be extended in memory (Extend: *)
+(* further fibre sections put behind a fibre of the designed line) and designed again; the clauses then hold for  *)
+(* the second result with respect to the topology the second design was given.                                   *)
 (* Lengths are integer metres, losses micro-dB, coef is mdB/km (so coef * len is micro-dB).                     *)
 EXTENDS DesignGraph, TLC
 
-CONSTANTS Cases            \* set of [g |-> input graph, s |-> settings]: the well-formed topologies x Span settings
+CONSTANTS Cases            \* set of [g |-> input graph, s |-> settings, x |-> extension]: the well-formed topologies x Span
+                           \* settings; x = <<>> or the sections <<[at |-> uid of a fibre, el |-> new fibre], ...>> that are
+                           \* put into the designed network before it is designed a second time
 
 VARIABLES g,               \* the graph being rewritten
-          inp,             \* the topology auto-design was given (never changes)
+          inp,             \* the topology auto-design was given (changes only when the designed network is extended)
           cfg,             \* the Span settings (never change)
           phase,           \* "split" | "roadm" | "inline" | "connectors" | "padding" | "amps" | "done"
-          seen             \* indices already handled in the current phase
-vars == <<g, inp, cfg, phase, seen>>
+          seen,            \* indices already handled in the current phase
+          ext,             \* sections still to be added to the designed network (<<>>: none)
+          round            \* 1 = first design of this network object, 2 = it was extended and is designed again
+vars == <<g, inp, cfg, phase, seen, ext, round>>
 
 NoSub  == [variety |-> "", gain |-> NONE, voa |-> NONE, dp |-> NONE]
 \* an inserted amplifier: an Edfa on a single-band line, a Multiband_amplifier (one amplifier per design band) otherwise
@@ -54,7 +61,7 @@ FibLoss(e) == e.coef * e.len + e.conIn + e.conOut + e.attIn
 
 -----------------------------------------------------------------------------
 Init == \E c \in Cases : /\ g = c.g /\ inp = c.g /\ cfg = c.s
-                         /\ phase = "split" /\ seen = {}
+                         /\ phase = "split" /\ seen = {} /\ ext = c.x /\ round = 1
 
 (* ---- split_fiber: the fibre's slot becomes span 1, spans 2..k are new nodes --------------------------------- *)
 \* add_missing_elements_in_network (split, preamp / booster, inline) only runs when insertion is on
@@ -123,12 +130,26 @@ SetAmp(i) ==
                                           !.sub = new]]
        /\ seen' = seen \cup {i}
 
+(* ---- the designed network is used again: new sections are spliced into the same graph, then designed_network() ---- *)
+\* the span after which a section announced "behind fibre nm" goes: nm itself, or the last of the spans it was cut into
+LastSpanOf(G, nm) == CHOOSE j \in Fibres(G) : /\ G[j].name = nm \/ G[j].origin = nm
+                                              /\ LET n == NextFibre(G, j, Len(G)) IN n = 0 \/ G[n].origin # nm
+RECURSIVE Extended(_, _)
+Extended(G, x) == IF x = <<>> THEN G
+                  ELSE LET j == LastSpanOf(G, Head(x).at)
+                       IN Extended(Insert(G, j, Next1(G, j), Head(x).el), Tail(x))
+\* the second design is given the extended graph as it is: what the first design inserted is now part of the topology
+Extend == LET G2 == Extended(g, ext)
+              G3 == [k \in Nodes(G2) |-> [G2[k] EXCEPT !.origin = ""]]
+          IN g' = G3 /\ inp' = G3 /\ ext' = <<>> /\ round' = 2 /\ phase' = "split" /\ seen' = {}
+
 -----------------------------------------------------------------------------
 Step(todo, Act(_), nextPhase) ==
     IF todo # {} THEN Act(SetMin(todo)) /\ phase' = phase
     ELSE g' = g /\ seen' = {} /\ phase' = nextPhase
 
-Next == /\ UNCHANGED <<inp, cfg>>
+Rewrite ==
+        /\ UNCHANGED <<inp, cfg, ext, round>>
         /\ \/ phase = "split"      /\ Step(SplitTodo, SplitFiber, "roadm")
            \/ phase = "roadm"      /\ IF PreampTodo \cup BoosterTodo = {} THEN g' = g /\ seen' = {} /\ phase' = "inline"
                                       ELSE /\ phase' = phase /\ seen' = seen
@@ -142,6 +163,8 @@ Next == /\ UNCHANGED <<inp, cfg>>
            \/ phase = "connectors" /\ Step(ConnTodo, CompleteFiber, "padding")
            \/ phase = "padding"    /\ Step(PadTodo, PadSpan, "amps")
            \/ phase = "amps"       /\ Step(AmpTodo, SetAmp, "done")
+Next == \/ Rewrite
+        \/ phase = "done" /\ ext # <<>> /\ Extend /\ UNCHANGED cfg
 Spec == Init /\ [][Next]_vars
 
 -----------------------------------------------------------------------------
